@@ -446,3 +446,119 @@ impl PayloadHistory {
     }
 }
 
+
+
+//============ Kani harnesses (verification only) ============================
+//
+// Compiled only by `cargo kani` (which sets `cfg(kani)`); add-only.
+//
+// These harnesses discharge, against the real `rpki::rtr::Serial` code and
+// over all `u32 x u32`, the contracts that the Verus environment of this
+// module's functions assumes (`serial_cmp`, `wadd`, `eq`, `From<u32>`).
+
+#[cfg(kani)]
+mod kani_verif {
+    use super::*;
+    use std::cmp::Ordering;
+
+    /// The comparison contract assumed in the Verus environment
+    /// (`serial_cmp` in `units/history/env.rs`), transcribed literally.
+    fn serial_cmp(a: u32, b: u32) -> Option<Ordering> {
+        if a == b { Some(Ordering::Equal) }
+        else if a < b {
+            if b - a < 0x8000_0000 { Some(Ordering::Less) }
+            else if b - a > 0x8000_0000 { Some(Ordering::Greater) }
+            else { None }
+        } else {
+            if a - b < 0x8000_0000 { Some(Ordering::Greater) }
+            else if a - b > 0x8000_0000 { Some(Ordering::Less) }
+            else { None }
+        }
+    }
+
+    /// `wadd` of the Verus environment: addition modulo 2^32.
+    fn wadd(a: u32, b: u64) -> u32 {
+        ((a as u64 + b) % 0x1_0000_0000) as u32
+    }
+
+    /// `Serial::partial_cmp` is `serial_cmp`, which is RFC 1982 ordering:
+    /// less iff the wrapping distance to `b` is in `1 .. 2^31`, undefined
+    /// iff it is exactly `2^31`.
+    #[kani::proof]
+    fn serial_partial_cmp_contract() {
+        let a: u32 = kani::any();
+        let b: u32 = kani::any();
+        let r = Serial(a).partial_cmp(&Serial(b));
+        assert!(r == serial_cmp(a, b));
+        let fwd = b.wrapping_sub(a);
+        assert!((r == Some(Ordering::Equal)) == (fwd == 0));
+        assert!((r == Some(Ordering::Less)) == (fwd >= 1 && fwd < 0x8000_0000));
+        assert!((r == Some(Ordering::Greater)) == (fwd > 0x8000_0000));
+        assert!(r.is_none() == (fwd == 0x8000_0000));
+        kani::cover!(r == Some(Ordering::Less) && a > b);
+        kani::cover!(r == Some(Ordering::Greater) && a < b);
+        kani::cover!(r.is_none() && a < b);
+        kani::cover!(r.is_none() && a > b);
+        kani::cover!(r == Some(Ordering::Equal));
+    }
+
+    /// The operators `<`, `<=`, `>`, `>=` on `Serial` are the ones derived
+    /// from `serial_cmp` (what Verus derives from `partial_cmp_spec`).
+    #[kani::proof]
+    fn serial_operators_contract() {
+        let a: u32 = kani::any();
+        let b: u32 = kani::any();
+        let c = serial_cmp(a, b);
+        assert!((Serial(a) < Serial(b)) == (c == Some(Ordering::Less)));
+        assert!(
+            (Serial(a) <= Serial(b))
+            == (c == Some(Ordering::Less) || c == Some(Ordering::Equal))
+        );
+        assert!((Serial(a) > Serial(b)) == (c == Some(Ordering::Greater)));
+        assert!(
+            (Serial(a) >= Serial(b))
+            == (c == Some(Ordering::Greater) || c == Some(Ordering::Equal))
+        );
+        kani::cover!(Serial(a) < Serial(b) && a > b);
+        kani::cover!(Serial(a) > Serial(b) && a < b);
+        kani::cover!(
+            a != b && !(Serial(a) < Serial(b)) && !(Serial(a) > Serial(b))
+        );
+    }
+
+    /// `==` on serials (and against a `u32`) is equality of the numbers;
+    /// `From<u32>`/`Into<u32>` are the identity on the number.
+    #[kani::proof]
+    fn serial_eq_from_contract() {
+        let a: u32 = kani::any();
+        let b: u32 = kani::any();
+        assert!((Serial(a) == Serial(b)) == (a == b));
+        assert!((Serial(a) != Serial(b)) == (a != b));
+        assert!((Serial(a) == b) == (a == b));
+        assert!(Serial::from(a).0 == a);
+        assert!(u32::from(Serial(a)) == a);
+        kani::cover!(Serial(a) == Serial(b));
+        kani::cover!(Serial(a) != Serial(b));
+    }
+
+    /// `Serial::add(n)` for every `n <= 2^31 - 1` (its precondition in the
+    /// Verus environment) does not panic and is addition modulo 2^32; the
+    /// result is then strictly greater than the original unless `n == 0`.
+    #[kani::proof]
+    fn serial_add_contract() {
+        let a: u32 = kani::any();
+        let n: u32 = kani::any();
+        kani::assume(n <= 0x7FFF_FFFF);
+        let r = Serial(a).add(n);
+        assert!(r.0 == wadd(a, n as u64));
+        if n > 0 {
+            assert!(Serial(a) < r);
+        }
+        else {
+            assert!(Serial(a) == r);
+        }
+        kani::cover!(r.0 < a);
+        kani::cover!(n == 0x7FFF_FFFF);
+        kani::cover!(n == 1 && a == u32::MAX);
+    }
+}
